@@ -1,6 +1,9 @@
 """History driver for C14 (stand-alone script, run as a subprocess: one fresh interpreter per history).
 
-    PYTHONHASHSEED=<n> PYTHONPATH=<codec shim>:<repo> python hist_driver.py plan.json result.json
+    PYTHONHASHSEED=<n> VERIF_HIST_REPO=<repo> VERIF_HIST_CODEC=<mlw_codec .so> python -P hist_driver.py plan.json result.json
+
+(the driver puts the repository first on sys.path and installs the private build of the C codec as
+ethosu.mlw_codec itself; it does not rely on a sitecustomize shim, which concurrent VERIF_REPO runs share)
 
 plan  = {"workdir": dir, "steps": [{"entry": "main"|"convert"|"convert_bytes", "model": path, "args": [...]}]}
 result = {"hashseed": ..., "init": <cache projection>, "steps": [<step record>...]}
@@ -26,9 +29,24 @@ def _h(b):
     return hashlib.sha256(bytes(b)).hexdigest()[:16]
 
 
+def _inject():
+    import importlib.machinery
+    import importlib.util
+    repo, so = os.environ["VERIF_HIST_REPO"], os.environ["VERIF_HIST_CODEC"]
+    sys.path.insert(0, repo)
+    import ethosu
+    loader = importlib.machinery.ExtensionFileLoader("ethosu.mlw_codec", so)
+    spec = importlib.util.spec_from_file_location("ethosu.mlw_codec", so, loader=loader)
+    mod = importlib.util.module_from_spec(spec)
+    spec.loader.exec_module(mod)
+    sys.modules["ethosu.mlw_codec"] = mod
+    ethosu.mlw_codec = mod
+
+
 def main():
     plan = json.load(open(sys.argv[1]))
     os.chdir(plan["workdir"])
+    _inject()
     from ethosu.vela import vela
     from ethosu.vela import tensor as T
     from ethosu.vela import weight_compressor as WC
